@@ -183,8 +183,21 @@ def _guard_resources():
     signal.signal(signal.SIGALRM, _alarm)
 
 
+_JOURNAL = {'cur': None, 'skip': set()}    # per shard process: file naming the case in execution, cases known to kill the process
+
+
 def _safe_execute(check, case, stats):
     import signal
+    if _JOURNAL['cur'] is not None:
+        digest = hashlib.sha1(canon(case).encode()).hexdigest()
+        if digest in _JOURNAL['skip']:
+            # an earlier attempt of this shard died while executing this very case (abort inside a C library, kill by
+            # the kernel): inconclusive, never a verdict
+            stats.counters['cases_abandoned'] = stats.counters.get('cases_abandoned', 0) + 1
+            stats.notes.append('inconclusive: case killed the worker process, skipped on restart: %s' % canon(case)[:300])
+            return None
+        with open(_JOURNAL['cur'], 'w') as outfile:
+            outfile.write(digest)
     began = time.time()
     try:
         signal.alarm(CASE_TIMEOUT_S)
@@ -239,9 +252,15 @@ def run_hypothesis(check, tier, seed_value, max_examples, stats, deadline_s=None
     prop()
 
 
-def _shard_worker(args):
+def _shard_worker(args, journal=None):
     (modname, tier, seed_value, max_examples, shard_index, enum_slice, deadline_s) = args
     import importlib
+    if journal is not None:
+        _JOURNAL['cur'] = journal + '.cur'
+        try:
+            _JOURNAL['skip'] = set(open(journal + '.skip').read().split())
+        except OSError:
+            _JOURNAL['skip'] = set()
     try:
         check = importlib.import_module(modname)
         stats = Stats()
@@ -267,9 +286,15 @@ def _shard_worker(args):
         return ('harness', '%s: %s\n%s' % (type(err).__name__, err, traceback.format_exc(limit=12)))
 
 
-def _shard_child(conn, job):
+def _shard_child(conn, job, journal=None):
     try:
-        conn.send(_shard_worker(job))
+        result = _shard_worker(job, journal)
+        if journal is not None:
+            try:
+                os.unlink(journal + '.cur')
+            except OSError:
+                pass
+        conn.send(result)
     finally:
         conn.close()
 
@@ -279,8 +304,12 @@ def _run_shards(jobs, nproc, stats):
     (killed from outside, out of memory) is started again; a shard that dies three times is a harness error.  Nothing
     here can wait for ever on a dead worker (multiprocessing.Pool.map does). '''
     import multiprocessing.connection
+    import shutil
+    import tempfile
     ctx = multiprocessing.get_context('fork')
     results = {}
+    scratch = tempfile.mkdtemp(prefix='verif-shards-')
+    deaths_outside = dict((idx, 0) for idx in range(len(jobs)))
     attempts = dict((idx, 0) for idx in range(len(jobs)))
     todo = list(range(len(jobs)))
     running = {}     # connection -> (index, process)
@@ -289,7 +318,7 @@ def _run_shards(jobs, nproc, stats):
             idx = todo.pop(0)
             attempts[idx] += 1
             parent_conn, child_conn = ctx.Pipe(duplex=False)
-            proc = ctx.Process(target=_shard_child, args=(child_conn, jobs[idx]))
+            proc = ctx.Process(target=_shard_child, args=(child_conn, jobs[idx], os.path.join(scratch, 'shard-%d' % idx)))
             proc.start()
             child_conn.close()
             running[parent_conn] = (idx, proc)
@@ -299,13 +328,28 @@ def _run_shards(jobs, nproc, stats):
                 results[idx] = conn.recv()
             except (EOFError, OSError):
                 proc.join(10)
-                if attempts[idx] >= 3:
+                journal = os.path.join(scratch, 'shard-%d' % idx)
+                try:
+                    lethal = open(journal + '.cur').read().strip()
+                    os.unlink(journal + '.cur')
+                except OSError:
+                    lethal = ''
+                if lethal:
+                    # the case in execution when the process died is skipped (and counted) from now on
+                    with open(journal + '.skip', 'a') as outfile:
+                        outfile.write(lethal + '\n')
+                else:
+                    deaths_outside[idx] += 1
+                if deaths_outside[idx] >= 3 or attempts[idx] >= 12:
+                    shutil.rmtree(scratch, ignore_errors=True)
                     raise HarnessError('shard %d died %d times without a result (exit code %s)' % (idx, attempts[idx], proc.exitcode))
-                stats.notes.append('shard %d died without a result (exit code %s); started again' % (idx, proc.exitcode))
+                stats.notes.append('shard %d died without a result (exit code %s)%s; started again'
+                                   % (idx, proc.exitcode, ' while executing a case, which is skipped from now on' if lethal else ''))
                 todo.append(idx)
             finally:
                 conn.close()
             proc.join(30)
+    shutil.rmtree(scratch, ignore_errors=True)
     return [results[idx] for idx in range(len(jobs))]
 
 
